@@ -137,6 +137,22 @@ impl C01 {
       }
       (Err(_), false) => {}
     }
+    // the panicking constructor accepts exactly the same triples
+    if m >= 0 && d >= 0 {
+      let r2 = guard(|| tyme4rs::tyme::solar::SolarDay::from_ymd(y as isize, m as usize, d as usize)).map(|s| ymd(&s));
+      match (r2, exists) {
+        (Ok(g), true) if g != (y, m, d) => {
+          out.fail(env, viol("accept", "from_ymd_fields", case, &k, format!("SolarDay::from_ymd({},{},{})", y, m, d), format!("{}-{}-{}", y, m, d), fmt_ymd(g)));
+        }
+        (Err(e), true) => {
+          out.fail(env, viol("accept", "from_ymd_refuses_valid_date", case, &k, format!("SolarDay::from_ymd({},{},{})", y, m, d), "accepted".into(), e));
+        }
+        (Ok(g), false) => {
+          out.fail(env, viol("accept", "from_ymd_accepts_nonexistent_date", case, &k, format!("SolarDay::from_ymd({},{},{})", y, m, d), "refused (date does not exist)".into(), format!("accepted as {}", fmt_ymd(g))));
+        }
+        _ => {}
+      }
+    }
   }
 
   fn eval_month(&self, env: &Env, out: &mut Out, case: &Case) {
